@@ -59,6 +59,11 @@ CHECKS = {
         "verdict must equal the oracle's.",
         "DESIGN.md section 4 C09",
     ),
+    "C13": sx(
+        "calling styles compared relationally on symbolic guards/arguments; send(name) over the finite attribute-name pool; event matching over a symbolic string (z3 string theory)",
+        "Every pre-state x event x calling style twin, every attribute name of the machine as an event name, and Transition.match for all strings.",
+        "DESIGN.md section 4 C13",
+    ),
     "C14": sx(
         "result rule judged on symbolic return values incl. awkward kinds",
         "All bounded populations of before/on callbacks x transition kinds x engines with symbolic return values; 0->None, 1->unwrapped, else list.",
